@@ -100,8 +100,9 @@ PROFILES = {
 # ---------------------------------------------------------------------------
 # per property: deciding clauses; TLC instances (quick depth, thorough depth);
 # simulation sources; profiles (name, config variants)
-def _p(clauses, mc, sim, profiles, pprops):
-    return dict(clauses=clauses, mc=mc, sim=sim, profiles=profiles, pprops=pprops)
+def _p(clauses, mc, sim, profiles, pprops, pairs=(), pairclause=None):
+    return dict(clauses=clauses, mc=mc, sim=sim, profiles=profiles, pprops=pprops, pairs=list(pairs),
+                pairclause=pairclause)
 
 
 PLAN = {
@@ -113,6 +114,8 @@ PLAN = {
               ["nameplate", "apps", "crowd"], ["P03"]),
     "C05": _p(["C05.a", "C05.b", "C05.c", "C05.keep"], [("core", 9, 12)], ["core"],
               ["crowd", "mailbox"], ["P05"]),
+    "C06": _p(["C06.frame"], [("apps", 8, 11)], ["apps"], ["apps"], ["P06"],
+              pairs=[("iso", 60, 3000)], pairclause="C06.pair"),
     "C07": _p(["C07.a", "C07.b", "C07.c", "C07.d", "C07.e"], [("core", 9, 12), ("apps", 8, 11)],
               ["core", "apps"], ["nameplate", "apps", "crowd"], ["P07"]),
     "C08": _p(["C08.a", "C08.b", "C08.c", "C08.d"], [("core", 9, 12)], ["core"],
@@ -122,15 +125,21 @@ PLAN = {
     "C09": _p(["C09.a", "C09.b"], [("crash", 8, 11), ("crashu", 7, 10)], ["crash", "crashu"],
               ["crash", "usage", "mailbox"], ["P09"]),
     "C10": _p(["C10.a", "C10.b", "C10.c", "C13.c"], [("crash", 8, 11), ("crashu", 7, 10)], ["crash", "crashu"],
-              ["crash"], ["P10", "P13"]),
+              ["crash"], ["P10", "P13"], pairs=[("resume", 60, 3000)], pairclause="C10.resume"),
+    "C11": _p([], [("time", 8, 11)], ["time"], [], ["P01", "P02"],
+              pairs=[("restart", 60, 3000)], pairclause="C11.pair"),
     "C12": _p(["C12.a", "C12.b"], [("time", 8, 11), ("time2", 7, 10)], ["time", "time2"],
               ["time", "fanout"], ["P12"]),
     "C13": _p(["C13.a", "C13.b", "C13.c"], [("time", 8, 11), ("time2", 7, 10)], ["time", "time2"],
               ["time", "crowd", "mailbox"], ["P13"]),
+    "C14": _p([], [("core", 9, 12)], ["core"], [], ["P03", "P07", "P08"],
+              pairs=[("resend", 72, 3000)], pairclause="C14.pair"),
     "C15": _p(["C15.a", "C15.b", "C15.c"], [("usage", 7, 10), ("usage7", 7, 10)], ["usage", "usage7"],
               ["usage"], ["P15"]),
     "C16": _p(["C16.a", "C16.b", "C16.c"], [("usage", 7, 10), ("usage7", 7, 10)], ["usage", "usage7"],
               ["usage"], ["P16"]),
+    "C18": _p(["C18.a"], [("nolist", 8, 11), ("alloc", 8, 11), ("allocnl", 8, 11)], ["nolist"],
+              ["nameplate"], ["P18"], pairs=[("config", 60, 3000)], pairclause="C18.pair"),
     "C17": _p(["C17.a", "C17.b", "C17.c", "C17.d", "C17.e", "C17.f"], [("proto", 7, 10), ("apps", 8, 11)],
               ["proto"], ["proto", "apps"], ["P17"]),
 }
